@@ -8,7 +8,7 @@ from collections.abc import MutableMapping, MutableSequence, MutableSet
 from typing import Any, Callable, Iterable, Optional
 
 from spec_classes.errors import FrozenInstanceError
-from spec_classes.types import MISSING, Attr
+from spec_classes.types import MISSING, UNCHANGED, Attr
 from spec_classes.utils.method_builder import MethodBuilder
 from spec_classes.utils.mutation import (
     _unfrozen,
@@ -101,6 +101,8 @@ class InitMethod(MethodDescriptor):
                 continue
 
             value = kwargs.get(attr, MISSING)
+            if value is UNCHANGED:
+                value = MISSING  # Nothing to change: the default applies.
             if value is not MISSING:
                 # If owner is not spec-class, we have already looked up and
                 # handled copying.
